@@ -16,6 +16,7 @@ import (
 	"encoding/json"
 	"fmt"
 	"net/netip"
+	"strings"
 	"sync/atomic"
 	"time"
 
@@ -35,12 +36,25 @@ type client struct {
 	reply []byte
 }
 
-func newClient() *client {
+func newClient() *client { return newClientCfg(0) }
+
+// newClientCfg: 0 = controller not configured (replies arrive through the broadcast path); 1 =
+// configured through NewDevice with a time zone of its own (UTC+8), UDP; 2 = configured as a struct
+// literal with a time zone (UTC-8), TCP. What a reply means does not depend on the configuration.
+func newClientCfg(cfg int) *client {
 	c := &client{}
 	c.fake = &drv.Fake{Script: func(drv.Call) ([][]byte, error) {
 		return [][]byte{append([]byte{}, c.reply...)}, nil
 	}}
-	c.u = uhppote.NewUHPPOTE(types.BindAddr{}, types.BroadcastAddr{}, types.ListenAddr{}, time.Second, nil, false)
+	var devices []uhppote.Device
+	addr := types.ControllerAddrFrom(netip.MustParseAddr("192.168.1.100"), 60000)
+	switch cfg {
+	case 1:
+		devices = []uhppote.Device{uhppote.NewDevice("", serial, addr, "udp", nil, time.FixedZone("UTC+8", 8*3600))}
+	case 2:
+		devices = []uhppote.Device{{DeviceID: serial, Address: addr, TimeZone: time.FixedZone("UTC-8", -8*3600), Protocol: "tcp"}}
+	}
+	c.u = uhppote.NewUHPPOTE(types.BindAddr{}, types.BroadcastAddr{}, types.ListenAddr{}, time.Second, devices, false)
 	if !drv.Install(c.u, c.fake) {
 		panic("cannot install fake driver")
 	}
@@ -105,8 +119,19 @@ func check(r *vk.Run, c *client, op *spec.Op, args spec.Args, reply []byte) {
 	}
 }
 
+func timeBearing(op *spec.Op) bool {
+	for _, f := range op.Reply {
+		switch f.Enc {
+		case spec.DateTime, spec.SysDate, spec.SysTime:
+			return true
+		}
+	}
+	return false
+}
+
 type job struct {
 	op   *spec.Op
+	cfg  int
 	name string
 	run  func(c *client, emit func(reply []byte))
 	n    int64
@@ -216,6 +241,14 @@ func main() {
 		mk := func() []byte { return append([]byte{}, baseReply...) }
 		add := func(name string, fn func(c *client, emit func([]byte))) {
 			jobs = append(jobs, job{op: op, name: name, run: fn})
+			// operations whose replies carry dates or times (and, thorough, all of them) again through
+			// clients that have the controller configured with a time zone of its own
+			light := name == "baseline" || name == "all-pairs" || name == "consecutive-replies" || strings.HasSuffix(name, "-all/base0")
+			if (timeBearing(op) && light) || r.Thorough() {
+				if op.Name != "GetDevice" && !op.Broadcast {
+					jobs = append(jobs, job{op: op, cfg: 1, name: name + "/configured-udp+8", run: fn}, job{op: op, cfg: 2, name: name + "/configured-tcp-8", run: fn})
+				}
+			}
 		}
 
 		add("baseline", func(c *client, emit func([]byte)) { emit(mk()) })
@@ -368,7 +401,7 @@ func main() {
 	// run the jobs
 	vk.Parallel(len(jobs), func(i int) {
 		j := jobs[i]
-		c := newClient()
+		c := newClientCfg(j.cfg)
 		base := ops.BaselineReply(j.op)
 		args := ops.EchoArgs(j.op, base)
 		var n int64
@@ -460,7 +493,7 @@ func main() {
 	}
 	r.Set("cases_per_operation", fam)
 	r.Distinct(distinct.Load())
-	r.Rule("per reply-bearing operation: baseline reply; each 1-byte field x all 256 values; each HH:mm field x all 65536 byte pairs; each BCD date x (all 65536 MMDD pairs x 5 (thorough 9) year patterns + all 65536 year pairs x 6 MMDD patterns); each adjacent byte pair of every date-time x all 65536 values x 3 (thorough 8) bases and of every system date / system time x 5 bases; binary multi-byte fields byte-wise + 32-bit alphabet; all pairs of fields over boundary patterns; every ordered pair of boundary patterns of one field as two consecutive replies; echo-rule sentinels over (asked, echoed) pairs of the 32-bit alphabet; date histories: every ordered pair of days <= 40 days apart in 2023-12-01..2025-02-28 as From/To of one card reply and as the dates of two consecutive replies (GetDevice, GetStatus). distinct = replies generated (each differs from the baseline in the swept bytes; sweeps pass through the baseline value once per family)")
+	r.Rule("per reply-bearing operation: baseline reply; each 1-byte field x all 256 values; each HH:mm field x all 65536 byte pairs; each BCD date x (all 65536 MMDD pairs x 5 (thorough 9) year patterns + all 65536 year pairs x 6 MMDD patterns); each adjacent byte pair of every date-time x all 65536 values x 3 (thorough 8) bases and of every system date / system time x 5 bases; binary multi-byte fields byte-wise + 32-bit alphabet; all pairs of fields over boundary patterns; every ordered pair of boundary patterns of one field as two consecutive replies; echo-rule sentinels over (asked, echoed) pairs of the 32-bit alphabet; date histories: every ordered pair of days <= 40 days apart in 2023-12-01..2025-02-28 as From/To of one card reply and as the dates of two consecutive replies (GetDevice, GetStatus). operations whose replies carry a date-time or system date/time (baseline, field pairs, consecutive replies and every adjacent byte pair of the time fields on the first base; thorough: every family of every operation) also through clients with the controller configured with its own time zone (NewDevice/UDP/UTC+8 and literal/TCP/UTC-8). distinct = replies generated (each differs from the baseline in the swept bytes; sweeps pass through the baseline value once per family)")
 	r.Assume("reference decoder spec.ExpectReply / spec.GetField and tables spec/protocol.go (hand-written)")
 	r.Assume("replies reach the API through the broadcast path of an unconfigured client (the directed paths share the decoding code; their filters are C03)")
 	r.Assume("process time zone pinned to UTC (zone dependence is C05/C13)")
